@@ -204,6 +204,7 @@ def run(ctx):
       'previous-wraps': 'the first event is compared with the last one, so what is written for step 0 depends on how the sequence ends: rendering then extracting no longer returns the events',
       'neg-zero-slice': 'an empty remainder becomes the whole list'})
   C09.velocity(ctx)     # extraction re-bins the velocity the renderer wrote: the two maps must be inverse on bin representatives
+  sustained_is_about_the_last_event(ctx)
   C07.parameters_reach(ctx)      # the limits and the instrument given to a constructor are the ones extraction works with
   C07.pad_to_bar(ctx, 'EXTRACT/pad-next-bar-line')      # a padded extraction of rendered events gives the events back, not an extra bar
   C07.roll_pitch_range(ctx, 'EXTRACT/roll-pitch-range')
@@ -246,6 +247,28 @@ def run(ctx):
                fi.qualname, org, ' + sequence_start_time' if has_param else ''), construct='%s time origin' % fi.qualname)
   tempos(ctx)
   resolution(ctx)
+
+
+def sustained_is_about_the_last_event(ctx, rule='EXTRACT/sustained-is-about-the-last-event'):
+  """Melody.set_length ends a note that is still sounding when it pads on the right.  "Still sounding" is a fact about the *last* event
+  that is not NO_EVENT (a pitch: sounding; NOTE_OFF: not).  A test on the *set* of events has lost the order: an earlier NOTE_OFF
+  anywhere in the melody makes the last note look ended, and the padded melody is not what extraction of the rendered notes gives."""
+  fi = ctx.func('melodies_lib:Melody.set_length')
+  fn = fi.node
+  stores = [st for st in U.walk_stmts(fn) if isinstance(st, ast.Assign) and len(st.targets) == 1 and isinstance(st.targets[0], ast.Subscript) and
+            norm_text(st.targets[0].value) == 'self._events' and (dotted(st.value) or '').split('.')[-1] in ('MELODY_NOTE_OFF', 'NOTE_OFF')]
+  cons = 'Melody.set_length decides "still sounding" from the last event'
+  if not stores:
+    why = 'cannot classify: Melody.set_length does not store a NOTE_OFF into self._events'
+    ctx.ob(rule, fi, fn, False, why, construct=cons, unknown=why)
+    return
+  for st in stores:
+    conds = [U.expand_locals(fn, t, at=st) for t, _p in U.path_conditions(fn, st)]
+    unordered = [c for t in conds for c in ast.walk(t) if isinstance(c, ast.Call) and dotted(c.func) in ('set', 'frozenset', 'collections.Counter', 'Counter') and
+                 any(isinstance(a, ast.Attribute) and a.attr == '_events' for x in c.args for a in ast.walk(x))]
+    ctx.ob(rule, fi, st, not unordered, 'the NOTE_OFF is stored under conditions that read the events in order' if not unordered else
+           'whether the note at the end is still sounding is decided from %s, the set of all events: a NOTE_OFF anywhere earlier in the melody (a rest before the last note) makes the last '
+           'note look ended, so padding does not end it' % norm_text(unordered[0])[:50], construct=cons, definite=True)
 
 
 def step_order(ctx):
